@@ -27,7 +27,7 @@ KINDS = {
     "si": ("set", "int"), "ss": ("set", "string"), "msi": ("multiset", "int"), "us": ("uset", "string"),
     "fl": ("fwd", "int"), "qu": ("queue", "int"), "st": ("stack", "int"), "pq": ("pqueue", "int"),
     "ca": ("array4", "int"), "ar": ("array3", "int"), "tu": ("tuple", "mixed"),
-    "bs": ("bitset16", "pos"), "vb": ("vecbool", "pos"), "db": ("dynbitset", "pos"),
+    "bs": ("bitset16", "pos"), "bb": ("bitset100", "pos"), "vb": ("vecbool", "pos"), "db": ("dynbitset", "pos"),
     "mp": ("map", "kv"), "mm": ("multimap", "kv"), "um": ("umap", "kv"),
 }
 
